@@ -296,7 +296,8 @@ theorem parse_format_inverts_format (ts : List Tok) (values : Groups) (h : fitsF
 
 /-- the format strings of the code give the item lists used in the model -/
 example : fmtToks "{} ({}) {}: {}".toList = some fmt4 ∧ fmtToks "{} ({}) {}".toList = some fmt3 ∧
-    fmtToks "{} (E-value: {}, bitscore: {}, seeds: {}, tool: {})".toList = some smFmt := by decide +kernel
+    fmtToks "{} (E-value: {}, bitscore: {}, seeds: {}, tool: {})".toList = some smFmt ∧
+    fmtToks "{} (Da): {:.3f}".toList = some t2WeightFmt := by decide +kernel
 
 /-- `_GeneFunctionAnnotation.from_string(str(a)) == a` for every annotation object (`Annot.wf`: what the
     constructor checks) whose tool has no `)`, whose texts have no newline and whose product has no `:`
